@@ -174,6 +174,12 @@ def _get_mean_model_output(model_outputs: List[dict]) -> dict:
         (dict) The mean model output, where every label value is the average of all individual label values.
     """
     all_labels = {label for model_output in model_outputs for label in model_output}
-    mean_output = {label: sum([output.get(label, 0) for output in model_outputs]) / len(model_outputs)
-                   for label in all_labels}
+    mean_output = {}
+    for label in all_labels:
+        label_values = [output.get(label, 0) for output in model_outputs]
+        if all(value == label_values[0] for value in label_values):
+            # the mean of identical values is that value (sum / n may be off by a rounding error for n >= 3)
+            mean_output[label] = label_values[0]
+        else:
+            mean_output[label] = sum(label_values) / len(label_values)
     return mean_output
